@@ -67,6 +67,10 @@ func main() {
 		agentMain()
 		return
 	}
+	if id == "__lfs_ssh" {
+		sshMain(os.Args[2:])
+		return
+	}
 	fs := flag.NewFlagSet("check", flag.ExitOnError)
 	tier := fs.String("tier", os.Getenv("VERIF_TIER"), "quick or thorough")
 	replay := fs.String("replay", "", "replay file")
